@@ -189,7 +189,7 @@ impl Property for C17 {
         "C17"
     }
     fn rule(&self) -> String {
-        "Cases (stateful): a vector (any zoo type/provenance, length <=200 quick / 600 thorough), an iterator source (iter() | (&v).into_iter(), optionally .rev()), a sequence of 0..25 calls over next, next_back, nth(k), nth_back(k), size_hint with k in {0..5, rem-1, rem, rem+1, usize::MAX, usize::MAX-1, usize::MAX-rem, a fraction of rem, arbitrary} (rem = items remaining at call time), then a terminal count | last | collect | drain-and-keep-calling. Oracle: std::slice::Iter over the model bits driven by the same calls, every return value compared; the vector passes the battery afterwards (iteration does not modify it). Enumerated: all call sequences of length <=4 over a 7-call alphabet for every n<=5, all four sources, on 3 types. Non-trivial: items were consumed from both ends and at least one nth/nth_back with k>0 ran on a partially consumed iterator. Distinct by hash of the case.".into()
+        "Cases (stateful): a vector (any zoo type/provenance, length <=200 quick / 600 thorough), an iterator source (iter() | (&v).into_iter(), optionally .rev()), a sequence of 0..25 calls over next, next_back, nth(k), nth_back(k), size_hint with k in {0..5, rem-1, rem, rem+1, usize::MAX, usize::MAX-1, usize::MAX-rem, a fraction of rem, arbitrary} (rem = items remaining at call time), then a terminal count | last | collect | drain-and-keep-calling. Oracle: std::slice::Iter over the model bits driven by the same calls, every return value compared; the vector passes the battery afterwards (iteration does not modify it). Long vectors (enumerated, not random): 65..8193 bits on four types, every length 321..2600 (thorough 8300), the 70 400-bit fixed type at 7 lengths and a geometric ladder of lengths around every power of two from 2^14 to 2^21 (thorough 2^24) bits, with jumps to interior positions, 2^16+1 and 2^12+5. Enumerated: all call sequences of length <=4 over a 7-call alphabet for every n<=5, all four sources, on 3 types. Non-trivial: items were consumed from both ends and at least one nth/nth_back with k>0 ran on a partially consumed iterator. Distinct by hash of the case.".into()
     }
     fn random_cases(&self, tier: Tier) -> u64 {
         tier.pick(300000, 9600000)
@@ -233,6 +233,29 @@ impl Property for C17 {
                         }
                     }
                 }
+                }
+            }
+        }
+        // the 70 400-bit fixed type and a geometric ladder of lengths up to megabits (Bvd, Bv)
+        let mut long: Vec<(Tid, usize)> = HUGE_TYPE_LENS.iter().map(|&n| (TID_HUGE, n)).collect();
+        long.extend(ladder_lengths(tier));
+        for (t, n) in long {
+            if !sh.mine() {
+                continue;
+            }
+            let mut sparse = Bits::zeros(n);
+            for i in [70usize, 4100, 65_530, 65_540, n / 2, n - 3] {
+                if i < n {
+                    sparse.0[i] = true;
+                }
+            }
+            for (j, a) in [dense_value(n), sparse].into_iter().enumerate() {
+                for (f1, f2) in [(1000u16, 65000u16), (32768, 30000), (65000, 1000)] {
+                    let src = (j + f1 as usize + n) % 4;
+                    let calls = vec![Call::Nth(KSel::Frac(f1)), Call::Next, Call::NthBack(KSel::Frac(f2)), Call::NextBack, Call::Next, Call::Nth(KSel::Small(64)), Call::Next, Call::SizeHint, Call::Nth(KSel::Pow2Plus(16, 1)), Call::Next, Call::NthBack(KSel::Pow2Plus(12, 5)), Call::NextBack];
+                    if !f(C17Case { a: Operand::canon(t, a.clone()), into_iter: src & 1 == 1, rev: src & 2 == 2, calls, term: TERMS[(f2 as usize + src) % 4] }) {
+                        return;
+                    }
                 }
             }
         }
